@@ -244,19 +244,25 @@ SPECS = [
 
 def run(ctx):
     tasks = []
-    fmts = ("fb",) if ctx.tier == "quick" else ("fb", "npz", "tfrec")
-    for fmt in fmts:
-        for spec in SPECS:
+    specs = list(SPECS)
+    if ctx.tier == "thorough":
+        specs += [
+            [[("train", 2)], [("train", 1)], [], [("test", 2)]],
+            [[("train", 4)], [("train", 3)]],
+            [[("train", 1), ("test", 2)], [("holdout", 1), ("train", 2)],
+             [("test", 1)]],
+        ]
+    for fmt in ("fb", "npz", "tfrec"):
+        for spec in specs:
             counts = [sum(n for _, n in parts) + 1 for parts in spec]
             orders = list(interleavings(counts))
-            if fmt != "fb":
-                orders = orders[::7]
-            n = 6 if len(orders) > 12 else 1
+            if ctx.tier == "quick" and fmt != "fb":
+                orders = orders[::3]
+            if len(orders) > 400:
+                orders = orders[::len(orders) // 400 + 1]
+            n = max(1, min(8, len(orders) // 10))
             for i in range(n):
                 tasks.append((fmt, spec, orders[i::n]))
-    if ctx.tier == "quick":
-        tasks.append(("npz", SPECS[0], list(interleavings([4, 2]))[::3]))
-        tasks.append(("tfrec", SPECS[1], list(interleavings([3, 3]))[::5]))
     with core.pool() as ex:
         ne = 0
         for r in ex.map(case, tasks):
@@ -271,7 +277,10 @@ def run(ctx):
                 ctx.violation({"engine": "procgates", "symptom": sym,
                                "fmt": r["fmt"]}, msg, c)
     ctx.part("writer lists x every interleaving of the writers' steps (real "
-             "worker processes)", writer_lists=len(SPECS), executions=ne)
+             "worker processes)", writer_lists=len(specs), executions=ne,
+             note="quick: every interleaving for fb, every third for npz and "
+                  "tfrec; lists with more than 400 interleavings are "
+                  "subsampled evenly (thorough only)")
     ctx.sample({"writers": SPECS[3], "interleaving": [0, 1, 2, 2, 1, 0],
                 "step": "one write_example, or leaving the filler context"})
     ctx.cov["exhaustive"] = True
